@@ -8,11 +8,16 @@
                            (o = the template rendered with inert placeholder values, o' = the same control
                            path rendered with hostile values);
      no_comments o         the tokenizer finds no comment token in the output;
-     ends_in_data o        the tokenizer is back in the data state at the end of the output: the fragment
-                           is not left inside a tag, attribute, comment, RCDATA / raw-text / script element;
+     ends_in_data o        the tokenizer is back in the data state at the end of the output.  NOT a
+                           clause of the verdict: the property asks for "the same state as the author's
+                           own markup" (that is the final-state component of skel), and an author may
+                           end a fragment inside PLAINTEXT or an unclosed element; kept as a statistic;
      placement_ok o spans  every byte of every span (offset, length) of the output - the places where
-                           untrusted marker data landed - was consumed by the tokenizer as text (data
-                           state), RCDATA text or as a byte of a QUOTED attribute value.
+                           untrusted marker data landed - was consumed by the tokenizer as the content
+                           of a text node (data state, RCDATA, raw text, script data, PLAINTEXT) or as a
+                           byte of a QUOTED attribute value; never as a tag name, an attribute name, an
+                           unquoted value, tag punctuation, a comment or a DOCTYPE.  (Whether data may
+                           stand in a script or style body at all is property C02, not this one.)
 
    Plus the side condition on the regenerated policy used by the action-inertness theorem
    (content_sanitizers_ok), and the classifiers of the recorded findings D1 and D13 (second part of
@@ -49,6 +54,9 @@ Definition class_ok (c : posclass) : bool :=
   match c with
   | PText => true
   | PRcdata _ => true
+  | PRawtext _ => true
+  | PScript => true
+  | PPlaintext => true
   | PAttrValue _ _ Qdq => true
   | PAttrValue _ _ Qsq => true
   | _ => false
@@ -67,8 +75,6 @@ Definition c01_pair_verdict (o o' : bytes) : option bytes :=
   if negb (no_comments o) then Some (B "comment_token_in_output")
   else if negb (no_comments o') then Some (B "comment_token_in_output_with_hostile_data")
   else if negb (same_structure o o') then Some (B "structure_changed_by_data")
-  else if negb (ends_in_data o) then Some (B "output_does_not_end_in_data_state")
-  else if negb (ends_in_data o') then Some (B "output_with_hostile_data_does_not_end_in_data_state")
   else None.
 
 (* ------------------------------------------------------------------ untrusted values *)
